@@ -1885,6 +1885,13 @@ class TensorDict(TensorDictBase):
             mask_expand = mask_expand.squeeze(-1)
             if mndim == mask_expand.ndimension():  # no more squeeze
                 break
+        if mask_expand.shape != self.shape[: mask_expand.ndim]:
+            # torch checks this when it indexes a tensor; a tensordict without tensor
+            # entries would otherwise return a batch size made up from the mask
+            raise IndexError(
+                f"The shape of the mask {list(mask.shape)} does not match the batch size "
+                f"{list(self.shape)} of the tensordict."
+            )
         for key, value in self.items():
             d[key] = value[mask_expand]
         dim = int(mask.sum().item())
